@@ -11,6 +11,7 @@ from synkit.CRN.Hypergraph.conversion import _as_bipartite
 from pyvc import gen
 
 K_ORD = "synkit/CRN/Props/utils.py::_species_and_reaction_order"
+K_INC = "synkit/CRN/Hypergraph/hypergraph.py::CRNHyperGraph.incidence_matrix"
 
 
 def exact_S(rxns, species):
@@ -94,6 +95,10 @@ def check_network(tw, rxns, fails, tags):
     out, v = tw.check_call(K_ORD, _species_and_reaction_order, dict(crn=G))
     if v:
         fails.append({"function": "_species_and_reaction_order", "violations": v, "rxns": rxns, "tags": tags})
+    if K_INC in tw.functions:
+        out, v = tw.check_call(K_INC, type(H).incidence_matrix, dict(self=H, sparse=True))
+        if v:
+            fails.append({"function": "CRNHyperGraph.incidence_matrix", "violations": v, "rxns": rxns, "tags": tags})
     sp, rx, S = ST.build_S(H)
     # matrix: one row per species, one column per reaction, produced minus consumed; agrees with the incidence matrix
     if list(sp) != species or S.shape != (n, m):
